@@ -175,7 +175,7 @@ func pruneAbsent(ms *yang.ModSet, on map[string]bool, keepEmptyCase bool) (*yang
 			var kids []*yang.Stmt
 			for _, k := range s.Kids {
 				// (a uses or augment whose if-feature is off introduces nothing: it is deleted whole)
-				if c14DataKw[k.Kw] || k.Kw == "uses" || k.Kw == "augment" {
+				if c14DataKw[k.Kw] || k.Kw == "uses" || k.Kw == "augment" || k.Kw == "rpc" || k.Kw == "notification" {
 					absent := false
 					for _, iff := range k.FindAll("if-feature") {
 						if !enabledRef(iff.Arg) {
@@ -490,6 +490,12 @@ func c14GenB(r *core.Rng) c14Case {
 			yang.SortSections(b)
 		}
 	}
+	// an rpc and a notification that depend on a feature
+	if m0 := ms.Mods[0]; m0.FindArg("feature", "f0") != nil {
+		m0.Add(yang.S("rpc", "feat-rpc", yang.S("if-feature", "f0"), c14Input(yang.S("leaf", "x", yang.S("type", "string")))),
+			yang.S("notification", "feat-notif", yang.S("if-feature", "f0"), yang.S("leaf", "y", yang.S("type", "string"))))
+		yang.SortSections(m0)
+	}
 	// a denser feature dependency DAG (only on earlier features)
 	var all []*yang.Stmt
 	for _, m := range ms.Mods {
@@ -558,6 +564,8 @@ func c14GenC(r *core.Rng, idx int) c14Case {
 			yang.S("leaf", "b", yang.S("type", "string")), yang.S("unique", "a")),
 		yang.S("container", "dv-cont", yang.S("leaf", "inner", yang.S("type", "string"), yang.S("mandatory", "true"))),
 	)
+	m.Add(yang.S("rpc", "dv-rpc", c14Input(yang.S("leaf", "x", yang.S("type", "string")))),
+		yang.S("notification", "dv-notif", yang.S("leaf", "y", yang.S("type", "string")), yang.S("leaf", "y2", yang.S("type", "string"))))
 	base := "/" + pf + ":" + top.Arg + "/" + pf + ":"
 	type dev struct {
 		target  string
@@ -567,6 +575,7 @@ func c14GenC(r *core.Rng, idx int) c14Case {
 		forbid  bool
 		what    string
 		extraDv *yang.Stmt // a second deviate in the same deviation
+		abs     bool       // the target is a top-level statement of the module (rpc, notification), not a child of the top container
 	}
 	repl := func(t *yang.Stmt, st *yang.Stmt) {
 		for i, k := range t.Kids {
@@ -606,6 +615,14 @@ func c14GenC(r *core.Rng, idx int) c14Case {
 		{target: "dv-leaf", kind: "delete", props: []*yang.Stmt{yang.S("default", "5")}, what: "delete default", edit: func(t, p *yang.Stmt) { del(t, "default", "5") }},
 		{target: "dv-leaf", kind: "delete", props: []*yang.Stmt{yang.S("must", "1 = 1")}, what: "delete must", edit: func(t, p *yang.Stmt) { del(t, "must", "1 = 1") }},
 		{target: "dv-list", kind: "delete", props: []*yang.Stmt{yang.S("unique", "a")}, what: "delete unique", edit: func(t, p *yang.Stmt) { del(t, "unique", "a") }},
+		// rpcs and notifications, and nodes inside them, are targets like any other
+		{target: "dv-rpc", abs: true, kind: "not-supported", what: "not-supported rpc", edit: func(t, p *yang.Stmt) { p.Remove(t) }},
+		{target: "dv-notif", abs: true, kind: "not-supported", what: "not-supported notification", edit: func(t, p *yang.Stmt) { p.Remove(t) }},
+		{target: "dv-notif/" + pf + ":y", abs: true, kind: "not-supported", what: "not-supported leaf of a notification", edit: func(t, p *yang.Stmt) { t.Remove(t.FindArg("leaf", "y")) }},
+		{target: "dv-notif/" + pf + ":y2", abs: true, kind: "replace", props: []*yang.Stmt{yang.S("type", "uint8")}, what: "replace type of a leaf of a notification",
+			edit: func(t, p *yang.Stmt) { repl(t.FindArg("leaf", "y2"), yang.S("type", "uint8")) }},
+		{target: "dv-rpc/" + pf + ":input/" + pf + ":x", abs: true, kind: "add", props: []*yang.Stmt{yang.S("default", "dflt")}, what: "add default to an rpc input leaf",
+			edit: func(t, p *yang.Stmt) { t.Find("input").FindArg("leaf", "x").Add(yang.S("default", "dflt")) }},
 		// forbidden
 		{target: "dv-leaf", kind: "add", props: []*yang.Stmt{yang.S("units", "kg")}, forbid: true, what: "add units although the leaf has units"},
 		{target: "dv-leaf", kind: "add", props: []*yang.Stmt{yang.S("default", "9")}, forbid: true, what: "add default although the leaf has one"},
@@ -629,7 +646,11 @@ func c14GenC(r *core.Rng, idx int) c14Case {
 	for _, pr := range d.props {
 		dv.Add(pr.Clone())
 	}
-	deviation := yang.S("deviation", base+d.target, dv)
+	dpath := base + d.target
+	if d.abs {
+		dpath = "/" + pf + ":" + d.target
+	}
+	deviation := yang.S("deviation", dpath, dv)
 	if d.extraDv != nil {
 		deviation.Add(d.extraDv)
 	}
@@ -642,8 +663,11 @@ func c14GenC(r *core.Rng, idx int) c14Case {
 			tname = tname[:i]
 		}
 		var t *yang.Stmt
+		if d.abs {
+			et = edited.Mods[0]
+		}
 		for _, k := range et.Kids {
-			if k.Arg == tname && c14DataKw[k.Kw] {
+			if k.Arg == tname && (c14DataKw[k.Kw] || k.Kw == "rpc" || k.Kw == "notification") {
 				t = k
 			}
 		}
@@ -666,6 +690,13 @@ func c14GenC(r *core.Rng, idx int) c14Case {
 	}
 	c.ms = ms
 	return c
+}
+
+func c14Input(kids ...*yang.Stmt) *yang.Stmt {
+	in := yang.S0("input")
+	in.Block = true
+	in.Add(kids...)
+	return in
 }
 
 func c14Gen(seed int64, idx int) c14Case {
